@@ -130,6 +130,7 @@ proof fn lemma_tot_push(h: Seq<Value>, v: Value)
 }
 
 //@extract loopbody bigtools/src/bbi/bigbedwrite.rs process_val_zoom 1
+//@rule R16
 //@header fn process_val_zoom__level(zoom_item: &mut ZoomItem, options: &BBIWriteOptions, item_start: u32, item_end: u32, next_val: Option<u32>, chrom_id: u32, Ghost(ents): Ghost<Seq<(u32, u32)>>, Ghost(d0): Ghost<Seq<nat>>, Ghost(hps): Ghost<Seq<Piece>>, Ghost(hist): Ghost<Seq<Value>>, Ghost(prev_end): Ghost<int>) -> (out: Ghost<(Seq<nat>, Seq<Piece>)>)
 //@rule R2 min=2
 //@rule R1
